@@ -549,6 +549,31 @@ func main() {
 		rep.Finish()
 	}
 	runtime.GOMAXPROCS(1)
+	if rep.Mine(0) {
+		// the failure threshold as written: a backend with fewer unexpired failures than max_fails is up, whatever the number
+		for _, mf := range []string{"1", "2", "2147483647", "2147483648", "4294967296", "4294967297", "999999999999"} {
+			text := fmt.Sprintf("proxy / http://b0.test {\n max_fails %s\n fail_timeout 10s\n}", mf)
+			ups, err := proxy.NewStaticUpstreams(casketfile.NewDispenser("Casketfile", strings.NewReader(text)), "")
+			rep.Eval(1)
+			if err != nil {
+				rep.Class("max_fails-value/rejected-by-the-parser")
+				continue
+			}
+			h := hostsOf(ups[0])[0]
+			r := kit.MustReq(kit.Get("GET", "/x", "h"))
+			for fails := int32(0); fails <= 1; fails++ {
+				if mf == "1" && fails == 1 {
+					continue
+				}
+				h.Fails = fails
+				if ups[0].Select(r) == nil {
+					rep.Violation("C14/down-below-max_fails", fmt.Sprintf("max_fails %s: the backend is treated as down with %d unexpired failures", mf, fails), c14case{Block: text, Failure: fmt.Sprintf("Select returned nil with Fails=%d", fails)})
+				}
+			}
+			h.Fails = 0
+			rep.Class("max_fails-value/accepted")
+		}
+	}
 	if rep.Thorough() {
 		// iterative context bounding: every configuration with at most L preemptions, for L = 0, 1, 2, 3; a level that
 		// was completed for all configurations before the deadline is recorded (a level subsumes the ones below it)
